@@ -221,6 +221,14 @@ func runInChild(c Case, x *h.Ctx) {
 			h.Note("C05", "race", "data race outside the execution path (not judged): %s", r.sig)
 		}
 	}
+	if !done && !stopped && strings.Contains(all, "fatal error: checkptr:") {
+		// -race switches on checkptr, and the old golang.org/x/crypto sha3 (xorInUnaligned, behind
+		// every Keccak of >= 136 bytes) trips it: an artifact of the instrumented build, not an
+		// observation about the property. The case is not judged.
+		x.Label("child-aborted:checkptr-artifact")
+		h.Note("C05", "race", "some children were aborted by checkptr (x/crypto sha3 xorInUnaligned) and not judged; build the race binary with -gcflags=all=-d=checkptr=0 to run them")
+		return
+	}
 	if !done && !stopped {
 		// the child died before finishing the case: a Go runtime fatal error (e.g. concurrent map
 		// writes) in the code under test is itself a schedule-dependence witness
